@@ -789,16 +789,144 @@ Definition compose_ok (case trace : list N) : bool :=
   | _, _ => false
   end.
 
+(* ====================================================================================
+   end to end (case kind 4, C09): two real nodes A (0) and B (1) over loopback TCP / WebSocket,
+   one connection, a keep-alive user protocol K on both (ping runs next to it as non keep-alive
+   traffic when the header says so). Logical time in slots of 300 ms: the op of slot k happens at
+   300 k after both applications saw ConnectionEstablished, the observation at 300 k + 200; the
+   timeout T is 100 mod 300, so every deadline lies 100 ms from every op and every observation.
+     case  : 4 T ping transport nops (tag a)*
+             tag 0 nothing | 1 K on node a opens a substream (both ends then hold one)
+                 2 node a drops its oldest held substream | 3 node a half-closes its oldest held
+                 substream (shutdown of the write half) and keeps holding it
+     trace : 4 (rc closedA closedB)*      rc: 0 done, 1 not possible
+   Prediction: K's TransportService on either node is the Ts model (connection 1 of peer 0,
+   keep-alive): established at 0; an open is EOpen + the outbound SubstreamOpened on the opener
+   and an inbound SubstreamOpened on the other node; a node's connection task ends when its
+   channel has no strong sender (strong = 0; ping/identify handles are Inactive from T on, before
+   K's), and then both applications are told ConnectionClosed.
+   ==================================================================================== *)
+Definition e2e_step (s : st) (dt : N) (e : ev) : st := fst (step s dt e).
+Record e2e := mkE { e_a : st; e_b : st; e_closed : bool }.
+(* established at 0; the first op is at 300 (the state below is the one at 200) *)
+Definition e2e_init (T : N) : e2e :=
+  let s := e2e_step (e2e_step (init true T 0) 0 (EEst 0 1)) 200 ENone in mkE s s false.
+Definition node_dead (s : st) : bool := strong s 1 =? 0.
+Definition e2e_obs (x : e2e) : e2e :=      (* 200 ms later: timers have fired *)
+  let a := e2e_step (e_a x) 200 ENone in
+  let b := e2e_step (e_b x) 200 ENone in
+  mkE a b (e_closed x || node_dead a || node_dead b).
+(* one slot: the op at +100 after the previous observation, the observation 200 later *)
+Definition e2e_slot (x : e2e) (tag a : N) : e2e * N :=
+  let own (y : e2e) := if a =? 0 then e_a y else e_b y in
+  let oth (y : e2e) := if a =? 0 then e_b y else e_a y in
+  let put (mine other : st) := if a =? 0 then (mine, other) else (other, mine) in
+  if e_closed x then
+    (* nothing left to act on; time still passes *)
+    (e2e_obs (mkE (e2e_step (e_a x) 100 ENone) (e2e_step (e_b x) 100 ENone) true),
+     match tag with 0 => 0 | _ => 1 end)
+  else
+    let '(mine, other, rc) :=
+      match tag with
+      | 1 =>
+          let m1 := step (own x) 100 (EOpen 0) in
+          match filter (fun o => match o with ORet 0 _ => true | _ => false end) (snd m1) with
+          | ORet _ i :: _ =>
+              (e2e_step (fst m1) 0 (ESubOut i true), e2e_step (oth x) 100 (ESubIn 0 1 true), 0)
+          | _ => (fst m1, e2e_step (oth x) 100 ENone, 1)
+          end
+      | 2 =>
+          (e2e_step (own x) 100 (EDropSub 1), e2e_step (oth x) 100 ENone,
+           if 0 <? ch_held_of 1 (s_chans (own x)) then 0 else 1)
+      | 3 =>
+          (e2e_step (own x) 100 (EShutSub 1), e2e_step (oth x) 100 ENone,
+           if 0 <? ch_held_of 1 (s_chans (own x)) then 0 else 1)
+      | _ => (e2e_step (own x) 100 ENone, e2e_step (oth x) 100 ENone, 0)
+      end in
+    let '(na, nb) := put mine other in
+    (e2e_obs (mkE na nb (node_dead na || node_dead nb)), rc).
+Fixpoint e2e_run (x : e2e) (ops : list (N * N)) : list N :=
+  match ops with
+  | [] => []
+  | (tag, a) :: t =>
+      let '(x', rc) := e2e_slot x tag a in
+      [rc; b2n (e_closed x'); b2n (e_closed x')] ++ e2e_run x' t
+  end.
+Definition decode_ecase (l : list N) : option (N * list (N * N)) :=
+  match pall (let* kind := pN in let* T := pN in let* ping := pN in let* tr := pN in
+              let* ops := plist (let* tag := pN in let* a := pN in pret (tag, a)) in
+              pret (kind, T, ping, tr, ops)) l with
+  | Some (kind, T, ping, tr, ops) =>
+      if (kind =? 4) && (T mod 300 =? 100) && (300 <? T) && (T <? 2000) && (ping <? 2) && (tr <? 3) &&
+         forallb (fun o : N * N => (fst o <? 4) && (snd o <? 2)) ops && (N.of_nat (length ops) <? 40)
+      then Some (T, ops) else None
+  | None => None
+  end.
+Definition run_e2e (l : list N) : list N :=
+  match decode_ecase l with
+  | Some (T, ops) => 4 :: e2e_run (e2e_init T) ops
+  | None => [0]
+  end.
+
+(* the property on the observed closing time, stated without the model: per node the time of the
+   last keep-alive activity and the number of keep-alive substreams it holds follow from the case
+   and the observed result codes; the connection is closed at an observation point exactly when
+   some node has nothing held and its last activity is T or more ago *)
+Record eo := mkEO { eo_t : N; eo_lastA : N; eo_lastB : N; eo_heldA : N; eo_heldB : N;
+                    eo_closed : bool; eo_ok : bool }.
+Definition e2e_judge_slot (T : N) (o : eo) (tag a rc ca cb : N) : eo :=
+  let t := eo_t o + 100 in                (* op time *)
+  let did := (rc =? 0) && negb (eo_closed o) in
+  let lastA := if did && (tag =? 1) then t else eo_lastA o in
+  let lastB := if did && (tag =? 1) then t else eo_lastB o in
+  let heldA := if did then
+                 if tag =? 1 then eo_heldA o + 1
+                 else if (tag =? 2) && (a =? 0) then eo_heldA o - 1 else eo_heldA o
+               else eo_heldA o in
+  let heldB := if did then
+                 if tag =? 1 then eo_heldB o + 1
+                 else if (tag =? 2) && (a =? 1) then eo_heldB o - 1 else eo_heldB o
+               else eo_heldB o in
+  let tobs := t + 200 in
+  let idleA := (heldA =? 0) && (lastA + T <=? tobs) in
+  let idleB := (heldB =? 0) && (lastB + T <=? tobs) in
+  let should := eo_closed o || idleA || idleB in
+  let seen := negb (ca =? 0) in
+  mkEO tobs lastA lastB heldA heldB seen
+       (eo_ok o && (ca =? cb) &&
+        (* never before last activity + T, never while both ends hold a keep-alive substream *)
+        (if seen then should else true) &&
+        (* closed once the timeout has elapsed *)
+        (if should then seen else true) &&
+        (* an open on a live connection is accepted, drops/half-closes need something held *)
+        (if eo_closed o then true
+         else if tag =? 1 then rc =? 0
+         else if tag =? 0 then rc =? 0
+         else Bool.eqb (rc =? 0) (0 <? (if a =? 0 then eo_heldA o else eo_heldB o)))).
+Fixpoint e2e_judge (T : N) (o : eo) (ops : list (N * N)) (tr : list N) : bool :=
+  match ops, tr with
+  | [], [] => eo_ok o
+  | (tag, a) :: ops', rc :: ca :: cb :: tr' => e2e_judge T (e2e_judge_slot T o tag a rc ca cb) ops' tr'
+  | _, _ => false
+  end.
+Definition e2e_ok (case trace : list N) : bool :=
+  match decode_ecase case, trace with
+  | Some (T, ops), 4 :: body => e2e_judge T (mkEO 200 0 0 0 0 false true) ops body
+  | None, [0] => true
+  | _, _ => false
+  end.
+
 (* ---- dispatch on the case kind ---- *)
 Definition run_case (l : list N) : list N :=
-  match l with 2 :: _ => run_report l | 3 :: _ => run_compose l | _ => run_case_svc l end.
+  match l with 2 :: _ => run_report l | 3 :: _ => run_compose l | 4 :: _ => run_e2e l | _ => run_case_svc l end.
 Definition prop_ok_C08 (case trace : list N) : bool :=
   match case with
   | 2 :: _ => report_ok case trace
   | 3 :: _ => compose_ok case trace
+  | 4 :: _ => true
   | _ => prop_ok_C08_svc case trace
   end.
 Definition prop_ok_C09 (case trace : list N) : bool :=
-  match case with 2 :: _ | 3 :: _ => true | _ => prop_ok_C09_svc case trace end.
+  match case with 2 :: _ | 3 :: _ => true | 4 :: _ => e2e_ok case trace | _ => prop_ok_C09_svc case trace end.
 Definition known_class_C08 (case trace : list N) : N :=
   match case with 2 :: _ => report_known case trace | _ => 0 end.
